@@ -71,6 +71,7 @@ YS_GLUE(sdbg)
 YS_GLUE(srel)
 YS_GLUE(sofd)
 YS_GLUE(sofr)
+YS_GLUE(shr)
 
 #define YS_GLUE_TW(P)                                                         \
     template std::string glue_offsets_policy<P>(bool);                        \
